@@ -245,3 +245,86 @@ func vpH_C01_rs_bss_r() { vpNetComposeX("randomsub", 3, []int{0, 1, 1}, 1) }
 func vpH_C01_rs_sss_c() { vpNetComposeX("randomsub", 3, []int{1, 1, 1}, 0) }
 func vpH_C01_rs_rss_r() { vpNetComposeX("randomsub", 3, []int{2, 1, 1}, 1) }
 func vpH_C01_rs_sbs_c() { vpNetComposeX("randomsub", 3, []int{1, 0, 1}, 0) }
+
+// ---- gossipsub composition (thorough tier): three real gossipsub nodes on a concrete topology, publisher symbolic.
+// Mesh formation runs through the real Join / GRAFT exchange / heartbeat, propagation through the real mesh forwarding,
+// repair through the real IHAVE / IWANT gossip of a later heartbeat.
+func vpNetComposeGS(N int, roles []int, links [][2]int, order int) {
+	vpOpt("unwind", 10)
+	vpOpt("feasfrom", 99)
+	vpOpt("idshuffle", 1) // (with D=2 and at most two neighbours the selections do not depend on the shuffle, only the send order does)
+	nw := &vpMesh{proto: GossipSubID_v11}
+	names := []peer.ID{"n0", "n1", "n2", "n3"}
+	params := vpSmallParams()
+	for i := 0; i < N; i++ {
+		nw.nodes = append(nw.nodes, &vpNetNode{n: vpNewNode(string(names[i]), vpNodeCfg{router: "gossipsub", params: &params}), id: names[i], role: roles[i]})
+		nw.link = append(nw.link, make([]bool, N))
+		nw.q = append(nw.q, make([]*rpcQueue, N))
+	}
+	for _, l := range links {
+		nw.link[l[0]][l[1]], nw.link[l[1]][l[0]] = true, true
+	}
+	if order == 1 {
+		for i := 0; i < N; i++ {
+			nw.takeRole(i)
+		}
+	}
+	for _, l := range links {
+		nw.connect(l[0], l[1])
+	}
+	if order == 0 {
+		for i := 0; i < N; i++ {
+			nw.takeRole(i)
+		}
+	}
+	nw.round()
+	nw.round()
+	for i := 0; i < N; i++ {
+		nw.nodes[i].n.gs.heartbeat() // mesh maintenance: under-subscribed meshes are filled
+	}
+	nw.round()
+	nw.round()
+	s := vpInt("publisher", 0, N-1)
+	for i := 0; i < N; i++ {
+		if i == s {
+			ps := nw.nodes[i].n.ps
+			msg := vpMkMsg(string(nw.nodes[i].id), "1", vpT0)
+			msg.ReceivedFrom = nw.nodes[i].id
+			err := ps.val.ValidateLocal(msg)
+			vpAssert(err == nil, "a valid local publication is accepted")
+			ps.publishMessage(msg)
+		}
+	}
+	nw.round()
+	nw.round()
+	for i := 0; i < N; i++ {
+		nw.nodes[i].n.gs.heartbeat() // gossip: IHAVE to non-mesh topic peers
+	}
+	nw.round() // IHAVE
+	nw.round() // IWANT
+	nw.round() // payload
+	for i := 0; i < N; i++ {
+		for _, sub := range nw.nodes[i].subs {
+			vpAssert(len(sub.ch) == 1, "gossipsub: on a connected overlay every subscription of every subscriber receives the message exactly once")
+		}
+		if roles[i] != 1 {
+			vpAssert(len(nw.nodes[i].subs) == 0, "no subscriptions on non-subscribers")
+		}
+	}
+	vpCover(s == N-1, "published by the last node")
+}
+
+// Shuffles are the identity here (ONE outcome of the random peer selection; with "any permutation" the three-node line
+// did not finish in 25 minutes because every later send happens in a symbolic order); topologies and roles concrete,
+// the publisher symbolic. (A node with three neighbours — star or complete graph on 4 nodes, D=2 — did not finish in 25
+// minutes: outside.)
+func vpH_C01_gs_pair_ss_c()    { vpNetComposeGS(2, []int{1, 1}, [][2]int{{0, 1}}, 0) }
+func vpH_C01_gs_pair_ss_r()    { vpNetComposeGS(2, []int{1, 1}, [][2]int{{0, 1}}, 1) }
+func vpH_C01_gs_line_sss_c()   { vpNetComposeGS(3, []int{1, 1, 1}, [][2]int{{0, 1}, {1, 2}}, 0) }
+func vpH_C01_gs_line_sss_r()   { vpNetComposeGS(3, []int{1, 1, 1}, [][2]int{{0, 1}, {1, 2}}, 1) }
+func vpH_C01_gs_line_srs_c()   { vpNetComposeGS(3, []int{1, 2, 1}, [][2]int{{0, 1}, {1, 2}}, 0) }
+func vpH_C01_gs_line_srs_r()   { vpNetComposeGS(3, []int{1, 2, 1}, [][2]int{{0, 1}, {1, 2}}, 1) }
+func vpHT_C01_gs_tri_sss_c()   { vpNetComposeGS(3, []int{1, 1, 1}, [][2]int{{0, 1}, {1, 2}, {0, 2}}, 0) }
+func vpH_C01_gs_tri_ssb_r()    { vpNetComposeGS(3, []int{1, 1, 0}, [][2]int{{0, 1}, {1, 2}, {0, 2}}, 1) }
+func vpH_C01_gs_line4_ssss_c() { vpNetComposeGS(4, []int{1, 1, 1, 1}, [][2]int{{0, 1}, {1, 2}, {2, 3}}, 0) }
+func vpH_C01_gs_line4_srrs_r() { vpNetComposeGS(4, []int{1, 2, 2, 1}, [][2]int{{0, 1}, {1, 2}, {2, 3}}, 1) }
